@@ -370,6 +370,13 @@ func (w *world) sequential() {
 				w.probe(a, ch("probe.form", 2) == 1, fmt.Sprintf("after op %d", i))
 			}
 		}
+		// probes that are not IPv4 addresses at all: the property says nothing about
+		// the answer, but nothing may crash
+		if i%4 == 0 {
+			for _, junk := range []net.IP{nil, {}, {1, 2, 3}, net.ParseIP("2001:db8::1"), make(net.IP, 5)} {
+				w.f.Contains(junk)
+			}
+		}
 		b := boundaries(universe)
 		for j := 0; j < 3; j++ {
 			w.probe(b[ch("probe.addr", len(b))], ch("probe.form", 2) == 1, fmt.Sprintf("after op %d", i))
